@@ -815,8 +815,8 @@ def gen(ctx):
     c_docs = ['call-ok', 'call-rpcerr', 'notify-ok', 'notify-exc', 'batch-mixed', 'rejected-invalid']
     if deep:
         c_stacks = [list(s_) for n in (1, 2) for s_ in itertools.product(MW_KINDS, repeat=n)] + c_stacks[4:]
-        c_tables += ['replace-generic', 'same-callable']
-        c_docs = names
+        c_tables += ['replace-generic']
+        c_docs += ['call-unknown', 'batch-one-ok', 'batch-three-notify', 'call-internal', 'rejected-dup-ids', 'call-exc']
     for container in MW_CONTAINERS:
         for flavour in CONTAINER_ENTRIES + CONTAINER_ENTRIES_HTTP:
             http = flavour in CONTAINER_ENTRIES_HTTP
